@@ -38,6 +38,7 @@ def gen_spec(rng, cfg):
     n_roots = rng.choice([1, 1, 2, 2, 3])
     kinds = [("ref", "dict"), ("ref", "obj"), ("refattr", "dict")]
     counter = [0]
+    boolkey = [False]
 
     def key_for(ctype):
         i = counter[0]
@@ -46,6 +47,9 @@ def gen_spec(rng, cfg):
         if ctype == "obj":
             return "%s_%s" % (nm, salt)
         r = rng.random()
+        if cfg.get("npkeys") and r < 0.06 and not boolkey[0]:
+            boolkey[0] = True
+            return True              # a bool key in a dict
         if r < 0.1:
             return 100 + i           # int key in a dict
         if r < 0.15:
@@ -58,7 +62,7 @@ def gen_spec(rng, cfg):
 
     def children(ctype, n, depth):
         out = []
-        if ctype == "list":
+        if ctype in ("list", "nplist"):
             typ = "f" if rng.random() < 0.5 else "i"
             return tuple((i, ("leaf", typ, gen_value(rng, typ))) for i in range(max(n, 2)))
         left = n
@@ -67,6 +71,8 @@ def gen_spec(rng, cfg):
                 sub = rng.randint(2, min(left, 4))
                 choices = ["dict", "obj"] + (["list"] if cfg.get("lists", True) else [])
                 ct = rng.choice(choices)
+                if ct == "list" and cfg.get("npkeys") and rng.random() < 0.5:
+                    ct = "nplist"       # a list whose elements are addressed with numpy integer keys
                 out.append((key_for(ctype), (ct, children(ct, sub, depth + 1))))
                 left -= sub
             else:
@@ -89,7 +95,7 @@ class ExprGen:
         self.rng, self.spec, self.model, self.cfg = rng, spec, model, cfg
         self.ileaves = [l for l in spec.leaves if spec.leaf_type[l] == "i"]
         self.fleaves = [l for l in spec.leaves if spec.leaf_type[l] == "f"]
-        self.lists = [p for p, ct in spec.containers.items() if ct == "list"]
+        self.lists = [p for p, ct in spec.containers.items() if ct in ("list", "nplist")]
         self.leafconts = [p for p in spec.containers
                           if all(c in spec.leaf_type for c in spec.children[p])]
         self.ops_off = set(cfg.get("ops_off", ()))
@@ -99,7 +105,7 @@ class ExprGen:
         rng = self.rng
         if typ == "i":
             return ("lit", rng.choice([0, 1, 2, 3, -1, -2, -3, 5, 7, 10]))
-        return ("lit", rng.choice([0.5, 2.0, -1.5, 0.25, 3.0, 1e-3, 1.5e2, -0.75, 1.0, 0.0]))
+        return ("lit", rng.choice([0.5, 2.0, -1.5, 0.25, 3.0, 1e-3, 1.5e2, -0.75, 1.0, 0.0, -0.0, -2e-05]))
 
     def pick(self, cands):
         cands = [c for c in cands if c[0] not in self.ops_off]
@@ -155,7 +161,7 @@ class ExprGen:
             return ("bin", rng.choice(["//", "%"]), self.gen("i", d, True), ("lit", rng.choice([2, 3, -2, 5, 7])))
         if k == "pow":
             if rng.random() < 0.25:
-                base = rng.choice([2, 3, -3, -2]) if typ == "i" else rng.choice([2.0, 0.5, -3.0, 1.5])
+                base = rng.choice([2, 3, -3, -2]) if typ == "i" else rng.choice([2.0, 0.5, -3.0, 1.5, -0.0, -0.5])
                 # literal base, small non-negative integer exponent from an int leaf is too wild: use |x| % 4
                 e = ("bin", "%", ("bi", "abs", self.gen("i", 0, True), ()), ("lit", 4)) if self.ileaves else None
                 if e is not None:
